@@ -86,6 +86,15 @@ mod scripting;
 mod shell;
 mod signals;
 
+#[cfg(cicada_verif)]
+mod completers;
+#[cfg(cicada_verif)]
+mod highlight;
+#[cfg(cicada_verif)]
+mod prompt;
+#[cfg(cicada_verif)]
+pub mod verif;
+
 /// Represents an error calling `exec`.
 pub use crate::types::CommandResult;
 pub use crate::types::LineInfo;
